@@ -21,7 +21,7 @@ func init() {
 			"R2 decode-once: the module's only percent-decoder is internal/url.queryUnescape, reached only through ParseQuery, whose call sites are frozen (query string, urlencoded body); ProcessURI hands the raw query to it and no net/url decoding function is applied to request data; " +
 			"R3 failures are flagged: ProcessURI records a parse failure, and on every limit branch of the four body entry points the INBOUND/OUTBOUND_DATA_ERROR flag is set before returning (body-processor failures: C20.R4); R4 no silent drop at the argument limit (every path that skips the Add must set an error variable or interrupt); " +
 			"R5 multi-valued carriers: ingestion never funnels name/value pairs through a single-valued map or an overwriting collection write; R6 look-ahead reads in the URL/cookie/body parsers are length-guarded (A9 shapes); " +
-			"R7 ingestion loops are complete (no early exit), a query-string pair that has been split into name and value is always stored (only an empty pair is skipped, before the split), and the JSON key buffer is rewound on every path of the member callback.",
+			"R7 ingestion loops are complete (no early exit), a query-string pair that has been split into name and value is always stored (only an empty pair is skipped, before the split), and the JSON key buffer is rewound on every path of the member callback; R8 the body processor is selected from the Content-Type header case-insensitively: every condition on the header value that leads to a reqbodyProcessor assignment looks at a case-folded form of it (media types are case-insensitive; a case-sensitive sibling leaves a whole body uninspected without any error).",
 		NotDecided: []string{
 			"byte-exactness of each decoder and of third-party parsers (mime/multipart, encoding/xml, gjson)",
 			"exact values of derived variables (REQUEST_BASENAME, FILES_COMBINED_SIZE, ...)",
@@ -39,6 +39,7 @@ func runC03(c *an.Ctx) {
 	c03Carriers(c)
 	lookaheadRule(c, "R6", []string{"internal/url", "internal/cookies", "internal/bodyprocessors"}, 5)
 	c03Loops(c)
+	c03ProcessorSelection(c)
 }
 
 // ---- R1
@@ -534,4 +535,50 @@ func raisedOnlyAfter(fn *ssa.Function, at ssa.Instruction, mark func(ssa.Instruc
 	}
 	check(flag)
 	return ok, true
+}
+
+// c03ProcessorSelection: conditions on a header value that select a body processor are case-insensitive.
+func c03ProcessorSelection(c *an.Ctx) {
+	n := 0
+	for _, name := range []string{"internal/corazawaf.(*Transaction).AddRequestHeader", "internal/corazawaf.(*Transaction).AddResponseHeader"} {
+		fn := c.FnOpt(name)
+		if fn == nil || len(fn.Params) < 3 {
+			continue
+		}
+		val := fn.Params[2]
+		k := 0
+		an.Instrs(fn, func(in ssa.Instruction) {
+			if !an.IsCallToMethod(in, fullColl, "Single", "Set") {
+				return
+			}
+			recv := tempName.ReplaceAllString(an.Expr(an.CallOf(in).Args[0]), "")
+			if !strings.HasSuffix(recv, "bodyProcessor") {
+				return
+			}
+			for cond, truth := range an.DominatingConds(in.Block()) {
+				if !truth {
+					continue // the negative of a sibling test: judged at the sibling
+				}
+				deps := an.Deps(cond)
+				if !deps[ssa.Value(val)] {
+					continue
+				}
+				n++
+				k++
+				folded := false
+				for d := range deps {
+					if call, ok := d.(*ssa.Call); ok && call.Call.StaticCallee() != nil && call.Call.StaticCallee().Pkg != nil && call.Call.StaticCallee().Pkg.Pkg.Path() == "strings" {
+						switch call.Call.StaticCallee().Name() {
+						case "ToLower", "ToUpper", "EqualFold":
+							folded = true
+						}
+					}
+				}
+				e := tempName.ReplaceAllString(an.Expr(cond), "")
+				c.Check(folded, "R8", fmt.Sprintf("%s: body processor condition #%d on the header value is case-insensitive", shortFn(name), k), in.Pos(), e,
+					"the body processor "+tempName.ReplaceAllString(an.Expr(an.CallOf(in).Args[1]), "")+" is selected by "+e+", a case-sensitive test of the raw header value: a media type written in another case (Multipart/Form-Data) selects no processor, so the whole body stays invisible to ARGS_POST/FILES with no error variable set")
+			}
+		})
+	}
+	c.MinCount("R8", "header-value conditions selecting a body processor", n, 2)
 }
